@@ -61,3 +61,16 @@ int sc_stops_one_short(const char *dest, size_t dmax, int ch) {                 
     }
     return 0;
 }
+/* difference reported through *diff must not be narrowed */
+#include <stdint.h>
+int cmp16_good(const uint16_t *dest, size_t dlen, const uint16_t *src, size_t slen, int *diff) {
+    *diff = 0;
+    while (dlen && slen) { if (*dest != *src) { *diff = *dest - *src; break; } dlen--; slen--; dest++; src++; }
+    return 0;
+}
+int cmp16_narrowed(const uint16_t *dest, size_t dlen, const uint16_t *src, size_t slen, int *diff) {
+    size_t i;
+    *diff = 0;
+    for (i = 0; i < slen && i < dlen; i++) { const int16_t d = dest[i] - src[i]; if (d) { *diff = d; break; } }
+    return 0;
+}
